@@ -26,7 +26,7 @@ Inductive case :=
 | CObjDev (op : Z) (api lua dev : list Z).
 
 Definition mkR (pre l above : list cell) (pad grow max : Z) : registry :=
-  mkReg (pre ++ l ++ above ++ fresh pad) (len pre + len l) grow max.
+  let a := pre ++ l ++ above ++ fresh pad in mkReg a (len pre + len l) (len a) grow max.
 
 Definition aobss_eqb := list_eqb aobs_eqb.
 
